@@ -233,7 +233,7 @@ class MachO(BinFormat):
         "converts given target virtual address back to offset in file"
         s, offset, _ = self.getinfo(target)
         fileoffset = s.fileoffset if hasattr(s,'fileoffset') else s.offset
-        return s.fileoffset + offset
+        return fileoffset + offset
 
     def readsegment(self, S):
         "returns data of segment/section S"
